@@ -27,7 +27,7 @@ func TestMain(m *testing.M) {
 		Rule: "rapid state machine over a weighted trie on a logging in-memory storage adapter: update, delete, delete-and-re-add of identical content, rewrite with the same value, commit at any collapse level with the batch write as a separate step, 1..3 garbage-collection passes in any position, Root() reads at any time (also while dirty), reload. " +
 			"Oracle: 'durable' = model at the last trie commit whose batch was written. After every storage-affecting step a trie reopened from (durable root, durable weight) on the same storage must pass the full observation against the durable model (weight, root vs internal/refwmpt, owner + verifying proof for the first/last block of every key), and the harness's own walk of the raw records from the durable root must find every referenced hash. " +
 			"Crash points are ENUMERATED: for every prefix of the storage operation log of a history (single put/delete or a whole batch = one atomic operation) the storage is rebuilt from the prefix and the last durable root whose batch lies inside the prefix must resolve completely with the model content. " +
-			"One evaluation = one history or one (history, log prefix). Non-trivial = >=2 commits, >=2 GC passes after the last change, and a delete-and-recreate of a node with identical hash inside one commit window or a root read while dirty; distinct = distinct (step log, prefix).",
+			"One evaluation = one history or one (history, log prefix). Also: updates back to an earlier value, removals of absent keys, the three spellings of a removal, and the live trie itself is observed whenever it is clean and its batch written. Non-trivial = >=2 commits, >=2 GC passes after the last change, and a delete-and-recreate of a node with identical hash inside one commit window or a root read while dirty; distinct = distinct (step log, prefix).",
 		Assumptions: []string{"storage is internal/memkv: single operations and batches are atomic and totally ordered", "a trie commit whose batch has not been written yet is not durable", "the trie is not mutated between a commit and the write of its batch (mutations through collapsed nodes need the records in storage)"},
 	})
 	ev.Main(m)
